@@ -137,7 +137,8 @@ func (p *Parser) ReadPeek() {
 			// Skip Fastly pgrama embedded data
 			for {
 				t = p.tk.NextToken()
-				if t.Type == token.SEMICOLON {
+				// Stop at end of input too, otherwise an unterminated pragma never returns
+				if t.Type == token.SEMICOLON || t.Type == token.EOF {
 					break
 				}
 			}
